@@ -159,8 +159,12 @@ type c06Scn struct {
 
 func (s *c06Scn) hevc() bool { return s.vc == c06Hevc || s.vc == c06HevcEnh }
 
-func (s *c06Scn) v(ts int, p []byte) { s.evs = append(s.evs, c06Ev{kind: 'v', ts: uint32(ts), payload: p}) }
-func (s *c06Scn) a(ts int, p []byte) { s.evs = append(s.evs, c06Ev{kind: 'a', ts: uint32(ts), payload: p}) }
+func (s *c06Scn) v(ts int, p []byte) {
+	s.evs = append(s.evs, c06Ev{kind: 'v', ts: uint32(ts), payload: p})
+}
+func (s *c06Scn) a(ts int, p []byte) {
+	s.evs = append(s.evs, c06Ev{kind: 'a', ts: uint32(ts), payload: p})
+}
 
 func (s *c06Scn) paramSets() (vps, sps, pps []byte) {
 	r := s.r
@@ -841,6 +845,57 @@ func c06Corpus(g *G) {
 			s.v(i*40, c06VideoPayload(vc, true, 0, [][]byte{c06Nal(r, hevc, kt, n)}, false))
 		}
 		g.c06Emit("corpus-sizes-"+c06VcName[vc], s.evs, true, true)
+	}
+	// --- lone in-band parameter sets (the incomplete-group class): a key frame that brings only a PPS, a P frame that brings
+	// only an SPS (H.265: only a VPS), with frames and audio around them; then a complete group again
+	for _, vc := range []int{c06Avc, c06Hevc} {
+		for variant := 0; variant < 3; variant++ {
+			s := &c06Scn{r: r, vc: vc, ac: c06Aac}
+			hevc := vc != c06Avc
+			s.videoSeqHeader(0)
+			s.audioSeqHeader(0)
+			kt, pt := 5, 1
+			if hevc {
+				kt, pt = 19, 1
+			}
+			vps, sps, pps := s.paramSets()
+			ts := 0
+			vf := func(key bool, nals ...[]byte) {
+				s.v(ts, c06VideoPayload(vc, key, 0, nals, false))
+				ts += 40
+			}
+			af := func() { s.a(ts-20, c06AudioPayload(c06Aac, false, r.Bytes(30))) }
+			vf(true, c06Nal(r, hevc, kt, 40))
+			af()
+			vf(false, c06Nal(r, hevc, pt, 30))
+			switch variant {
+			case 0: // key frame with a PPS only
+				vf(true, pps, c06Nal(r, hevc, kt, 40))
+			case 1: // P frame that carries an SPS (H.265: a VPS) only
+				if hevc {
+					vf(false, vps, c06Nal(r, hevc, pt, 30))
+				} else {
+					vf(false, sps, c06Nal(r, hevc, pt, 30))
+				}
+			case 2: // SPS in one message, PPS in the next
+				vf(false, sps, c06Nal(r, hevc, pt, 30))
+				vf(true, pps, c06Nal(r, hevc, kt, 40))
+			}
+			for i := 0; i < 6; i++ {
+				af()
+				vf(i == 3, c06Nal(r, hevc, map[bool]int{true: kt, false: pt}[i == 3], 35))
+			}
+			if hevc {
+				vf(true, vps, sps, pps, c06Nal(r, hevc, kt, 40))
+			} else {
+				vf(true, sps, pps, c06Nal(r, hevc, kt, 40))
+			}
+			vf(false, c06Nal(r, hevc, pt, 30))
+			g.c06Emit(fmt.Sprintf("corpus-lone-parameter-set-%d-%s", variant, c06VcName[vc]), s.evs, true, true)
+			for _, ms := range []int{200, 1000} {
+				g.L("corpus-lone-parameter-set").run(fmt.Sprintf("c06.hls %s %d %s", c06Class(s.evs), ms, c06EventsStr(s.evs)))
+			}
+		}
 	}
 	// --- PES_packet_length boundary: the elementary stream of a frame (AUD + start code + NAL) walking across 65527..65536,
 	// with and without a composition offset (PTS+DTS header is 5 bytes longer)
